@@ -82,10 +82,12 @@ LOPS = {
 }
 
 
-def make_arch(arch):
+def make_arch(arch, a=None):
+    """builds the layers `arch` (onto the LayeredArchitecture object `a` if one is given)"""
     from .impl import LayeredArchitecture
 
-    a = LayeredArchitecture()
+    if a is None:
+        a = LayeredArchitecture()
     for name, kind, payload in arch:
         a = a.layer(name)
         if kind == "N":
@@ -115,13 +117,23 @@ def impl_layer(case) -> str:
     from .impl import LayerRule, err_kind, make_graph, parse_message
 
     g = make_graph(case["nodes"], case["imps"], case.get("lim"))
+    late = case.get("late", 0)
+    ops = case["lops"]
+    if late and not (len(ops) >= 2 and ops[0][0] == "based" and ops[1][0] == "lt"):
+        late = 0
     try:
-        arch = make_arch(case["arch"])
+        arch = make_arch(case["arch"][: len(case["arch"]) - late] if late else case["arch"])
     except Exception as e:  # noqa: BLE001
         return "ARCHERR:" + type(e).__name__
     r = LayerRule()
-    ops = case["lops"]
     for i, (op, arg) in enumerate(ops):
+        if late and i == 2:
+            # the rule has been started (based_on(arch).layers_that()); only now does the SAME architecture object receive its
+            # remaining layers - the rule must see the architecture as it is when the rule is completed and applied
+            try:
+                make_arch(case["arch"][len(case["arch"]) - late:], arch)
+            except Exception as e:  # noqa: BLE001
+                return "ARCHERR:" + type(e).__name__
         try:
             r = r.based_on(arch) if op == "based" else LOPS[op](r, arg)
         except AssertionError:
